@@ -1,6 +1,10 @@
 """Texts of MANIFEST.json entries (see tools/gen_manifest.py); per-property text is in tools/propcfg/."""
 from props import MANIFESTS
-HOOK_COMMITS = []
+# commits in /repo that add verification hooks (guard `grmtools_verif`; code is only added): full hashes.
+# 27a1a55 "verif hook: pager trace under cfg(grmtools_verif)" — lrtable/src/lib/pager.rs, lrtable/src/lib/mod.rs;
+# used by C02 (the trace of `pager_stategraph` the Lean model of the construction replays); the same change as a
+# patch file: patches/0001-verif-hook-pager-trace-under-cfg-grmtools_verif.patch
+HOOK_COMMITS = ["27a1a559da6d71df14b5d8c8a114c18cd304ddad"]
 ALL = ["C%02d" % i for i in range(1, 21)]
 CHECKS = MANIFESTS
 _REASON = "not yet built in this round: no Lean model/tie committed for it yet (see DESIGN.md §8 for the build order); it is not claimed rather than decided by another technique"
